@@ -190,7 +190,7 @@ async fn wait_accepted(monitor: &mut futures::channel::mpsc::Receiver<SocketEven
 async fn run_case(c: &Case) -> Vec<(String, String)> {
     let mut viol = Vec::new();
     let what = format!("bound {} over {}, {} raw client(s) that send {} of {} handshake bytes and then {}", c.ty.name(), c.tr.name(), c.bad_clients, c.offset, rc::handshake(c.ty.peer_type(), None).len(), BEHAVIOURS[c.behaviour]);
-    let mut sock = AnySocket::new(c.ty, None);
+    let mut sock = AnySocket::new_unmonitored(c.ty, None);
     sock.subscribe_all().await;
     let mut monitor = sock.monitor();
     let ep = match sock.bind(&e4::bind_spec(c.tr)).await {
